@@ -1525,9 +1525,7 @@ aiff_write_tailer (SF_PRIVATE *psf)
 
 	/* Make sure tailer data starts at even byte offset. Pad if necessary. */
 	if (psf->dataend % 2 == 1)
-	{	psf_fwrite (psf->header.ptr, 1, 1, psf) ;
-		psf->dataend ++ ;
-		} ;
+		psf_fwrite (psf->header.ptr, 1, 1, psf) ;
 
 	if (psf->peak_info != NULL && psf->peak_info->peak_loc == SF_PEAK_END)
 	{	psf_binheader_writef (psf, "Em4", BHWm (PEAK_MARKER), BHW4 (AIFF_PEAK_CHUNK_SIZE (psf->sf.channels))) ;
